@@ -51,17 +51,18 @@ theorem C01_sized (a : ArraySized) (ops : List (Spec.SSeq.Op Elem)) (m : Mem) (h
   obtain ⟨h1, h2, h3, _, _, h6⟩ := run_refines ops a m h hg hw
   exact ⟨h1, h2, h3, h6⟩
 
-/-- **C01 from the constructor**: every element size ≥ 1, every capacity the constructor accepts,
-every growth function (expansion factors ≤ 1 have already been replaced by the default when `grow`
-is built). -/
+/-- **C01 from the constructor**: every element size and capacity the constructor accepts (it
+rejects element size 0, capacity 0 and capacities whose buffer would not fit `size_t`), every
+growth function (expansion factors ≤ 1 have already been replaced by the default when `grow` is
+built). -/
 theorem C01_sized_new (dl cap : Nat) (grow : Nat → Nat) (exGe : Nat → Bool) (m0 m1 : Mem) (a : ArraySized)
-    (hdl : 0 < dl) (hex : exGe 0 = true) (hgrow : ∀ c, grow c ≤ CC_MAX_ELEMENTS)
+    (hgrow : ∀ c, grow c ≤ CC_MAX_ELEMENTS)
     (hnew : ArraySized.new dl cap grow exGe m0 = (.ok, some a, m1))
     (ops : List (Spec.SSeq.Op Elem)) (hw : ∀ op ∈ ops, OpWF dl op) :
     (a.run ops m1).1 = (Spec.SSeq.run [] ops (a.refusals ops m1)).1 ∧
     (a.run ops m1).2.1.abs = (Spec.SSeq.run [] ops (a.refusals ops m1)).2 ∧
     (a.run ops m1).2.1.Inv ∧ MemSame m1 (a.run ops m1).2.2 := by
-  obtain ⟨hinv, habs, hd, _, hg, _⟩ := new_ok dl cap grow exGe m0 m1 a hdl hex hnew
+  obtain ⟨hinv, habs, hd, _, hg, _⟩ := new_ok dl cap grow exGe m0 m1 a hnew
   have := C01_sized a ops m1 hinv (by intro c; rw [hg]; exact hgrow c) (by rw [hd]; exact hw)
   rw [habs] at this
   exact this
@@ -212,19 +213,29 @@ theorem C08_sized_atomic (a : ArraySized) (m : Mem) (h : a.Inv) (hg : a.GrowOk) 
     · rw [h1] at hst; cases hst
     · exact ⟨h2, h3⟩
 
-/-- constructor: invalid capacity is rejected before anything is allocated; a refusal yields no
-object and a balanced ledger; success owns exactly two blocks, which `destroy` releases -/
+/-- constructor: capacity 0, element size 0 and a capacity whose buffer size in bytes would
+exceed `CC_MAX_ELEMENTS` are rejected before anything is allocated (repair A9); a refusal yields no
+object and a balanced ledger; success owns exactly two blocks, which `destroy` releases, and the
+byte count `capacity * data_length` handed to `mem_alloc` is below 2^64 (no `size_t` wrap) -/
 theorem C08_sized_new_destroy (dl cap : Nat) (grow : Nat → Nat) (exGe : Nat → Bool) (m : Mem) :
-    (cap = 0 → ArraySized.new dl cap grow exGe m = (.errInvalidCapacity, none, m)) ∧
+    (cap = 0 ∨ dl = 0 ∨ CC_MAX_ELEMENTS / dl < cap →
+      ArraySized.new dl cap grow exGe m = (.errInvalidCapacity, none, m)) ∧
     ((ArraySized.new dl cap grow exGe m).1 = .errAlloc →
       (ArraySized.new dl cap grow exGe m).2.1 = none ∧ MemSame m (ArraySized.new dl cap grow exGe m).2.2) ∧
-    (∀ a m', 0 < dl → exGe 0 = true → ArraySized.new dl cap grow exGe m = (.ok, some a, m') →
+    (∀ a m', ArraySized.new dl cap grow exGe m = (.ok, some a, m') →
+      0 < a.dataLen ∧ a.capacity * a.dataLen < 2 ^ 64 ∧
       m'.live = m.live + 2 ∧ (a.destroy m').live = m.live ∧ (a.destroy m').fault = m.fault) := by
-  refine ⟨fun hc => new_invalid dl cap grow exGe m (Or.inl hc), new_refused dl cap grow exGe m, ?_⟩
-  intro a m' hdl hex hnew
-  obtain ⟨_, _, _, _, _, hl, hf⟩ := new_ok dl cap grow exGe m m' a hdl hex hnew
-  have := destroy_ledger a m' (by omega)
-  exact ⟨hl, by rw [this.1, hl]; omega, by rw [this.2, hf]⟩
+  refine ⟨?_, new_refused dl cap grow exGe m, ?_⟩
+  · intro hc
+    apply new_invalid
+    rcases hc with hc | hc | hc
+    · exact Or.inl hc
+    · exact Or.inr (Or.inr (Or.inl hc))
+    · exact Or.inr (Or.inr (Or.inr hc))
+  · intro a m' hnew
+    obtain ⟨hinv, _, _, _, _, hl, hf, _, hw⟩ := new_ok dl cap grow exGe m m' a hnew
+    have := destroy_ledger a m' (by omega)
+    exact ⟨hinv.1, hw, hl, by rw [this.1, hl]; omega, by rw [this.2, hf]⟩
 
 /-! ## C20 (sized part): capacity invariants -/
 
@@ -346,23 +357,23 @@ theorem C07_sized_zip (it : Iter) (a1 a2 : ArraySized) (c : Spec.SSeq.ZipCursor 
   obtain ⟨p1, p2, p3, _⟩ := zipReplace_refines it a1 a2 c e1 e2 m i1 i2 he1 he2 hrel
   exact ⟨zipInit_rel a1 a2, ⟨n1, n2, n3⟩, ⟨r1, r2, r3⟩, ⟨p1, p2, p3⟩, zipIndex_refines it a1 a2 c hrel⟩
 
-/-- `zip_iter_add`: both elements are inserted after the pair yielded last, or a growth was
-refused and both contents are unchanged.  **Partial** with respect to C07/C08: in the refused case
-the library (and therefore the model) has already advanced the cursor, so the cursor no longer
-represents the ideal one — the full statement `… ∨ (refused ∧ it' = it)` is false for the code as
-it stands (`corpus/array_sized/defect_zip_iter_add_refused.ops`). -/
-theorem C07_sized_zip_add_partial (it : Iter) (a1 a2 : ArraySized) (c : Spec.SSeq.ZipCursor Elem) (e1 e2 : Buf Nat)
+/-- `zip_iter_add`: both elements are inserted after the pair yielded last and the cursor steps
+over them; or a growth was refused: status `CC_ERR_ALLOC`, both contents unchanged, ledger
+balanced, and the cursor is exactly where it was and still represents the ideal cursor (repair A8;
+the history that used to diverge is `corpus/array_sized/zip_iter_add_refused.ops`). -/
+theorem C07_sized_zip_add (it : Iter) (a1 a2 : ArraySized) (c : Spec.SSeq.ZipCursor Elem) (e1 e2 : Buf Nat)
     (m : Mem) (i1 : a1.Inv) (i2 : a2.Inv) (g1 : a1.GrowOk) (g2 : a2.GrowOk)
     (he1 : e1.length = a1.dataLen) (he2 : e2.length = a2.dataLen) (hrel : ZipRel it a1 a2 c) :
     ((zipAdd it a1 a2 e1 e2 m).1 = .ok ∧
-      ZipRel (zipAdd it a1 a2 e1 e2 m).2.1 (zipAdd it a1 a2 e1 e2 m).2.2.1 (zipAdd it a1 a2 e1 e2 m).2.2.2.1 (c.add e1 e2)) ∨
+      ZipRel (zipAdd it a1 a2 e1 e2 m).2.1 (zipAdd it a1 a2 e1 e2 m).2.2.1 (zipAdd it a1 a2 e1 e2 m).2.2.2.1 (c.add e1 e2) ∧
+      MemSame m (zipAdd it a1 a2 e1 e2 m).2.2.2.2) ∨
     ((zipAdd it a1 a2 e1 e2 m).1 = .errAlloc ∧
       (zipAdd it a1 a2 e1 e2 m).2.2.1.abs = a1.abs ∧ (zipAdd it a1 a2 e1 e2 m).2.2.2.1.abs = a2.abs ∧
-      MemSame m (zipAdd it a1 a2 e1 e2 m).2.2.2.2 ∧
-      (zipAdd it a1 a2 e1 e2 m).2.1 = { it with index := it.index + 1 }) := by
-  rcases zipAdd_spec it a1 a2 c e1 e2 m i1 i2 g1 g2 he1 he2 hrel with ⟨h1, h2, _⟩ | ⟨h1, h2, h3, _, _, h6, h7⟩
-  · exact Or.inl ⟨h1, h2⟩
-  · exact Or.inr ⟨h1, h2, h3, h6, h7⟩
+      MemSame m (zipAdd it a1 a2 e1 e2 m).2.2.2.2 ∧ (zipAdd it a1 a2 e1 e2 m).2.1 = it ∧
+      ZipRel (zipAdd it a1 a2 e1 e2 m).2.1 (zipAdd it a1 a2 e1 e2 m).2.2.1 (zipAdd it a1 a2 e1 e2 m).2.2.2.1 c) := by
+  rcases zipAdd_spec it a1 a2 c e1 e2 m i1 i2 g1 g2 he1 he2 hrel with ⟨h1, h2, _, _, h5⟩ | ⟨h1, h2, h3, _, _, h6, h7, h8⟩
+  · exact Or.inl ⟨h1, h2, h5⟩
+  · exact Or.inr ⟨h1, h2, h3, h6, h7, h8⟩
 
 /-! ## Non-vacuity -/
 
